@@ -405,14 +405,7 @@ func (ex *Exec) callSpec(fr *Frame, st *State, c *FuncContract, args []*Value, r
 			facts = ex.typeFacts(res)
 		} else {
 			res, facts = ex.havoc(retT, "r."+c.Name)
-			if c.Extern {
-				// a slice returned by a dependency is taken as a view at offset 0 of its backing object
-				for ci, comp := range ex.L.Of(retT).Comps {
-					if comp.Kind == kSliceOff && comp.Lift == 0 {
-						res.C[ci] = ex.zeroOfSort(comp.Sort)
-					}
-				}
-			}
+
 		}
 		ex.assume(st, facts)
 		if tt, ok := retT.(*types.Tuple); ok {
@@ -1628,10 +1621,6 @@ func (ex *Exec) functionalResult(c *FuncContract, args []*Value, retT types.Type
 	l := ex.L.Of(retT)
 	v := &Value{T: retT, C: make([]*Term, len(l.Comps))}
 	for i, comp := range l.Comps {
-		if comp.Kind == kStrOff && comp.Lift == 0 {
-			v.C[i] = ex.zeroOfSort(comp.Sort) // offset 0 w.l.o.g. (the bytes are a value)
-			continue
-		}
 		name := fmt.Sprintf("fn$%s$%d$%d", c.Name, i, len(as))
 		ex.tb.DeclareUF(name, sorts, comp.Sort)
 		v.C[i] = ex.tb.App(name, comp.Sort, as...)
